@@ -105,6 +105,30 @@ pub fn gen_map(rng: &mut Rng) -> Map {
     }
 }
 
+/// slow contractions: |g'| <= |a| globally for these families, with |a| in [0.7, 0.99]
+pub fn gen_map_slow(rng: &mut Rng) -> Map {
+    let fam = [0u8, 2, 4, 7][rng.below(4)];
+    let a = rng.sign() * rng.r(0.7, 0.99);
+    match fam {
+        // affine: choose the fixed point x* in [-3,3], b = x* (1 - a)
+        2 => Map { fam, a, b: rng.r(-3.0, 3.0) * (1.0 - a) },
+        _ => Map { fam, a, b: rng.r(-2.0, 2.0) },
+    }
+}
+
+/// Constant of the accuracy bound. The routine may return g(x) as soon as |g(x) - x| <= tol, which
+/// leaves |g(x) - x*| <= L/(1-L) tol for a contraction with constant L: for the families whose
+/// |g'| is bounded by |a| globally the bound is max(4, 1.5 L/(1-L)) tol (4 tol up to L = 0.72).
+fn k_tol(map: &Map) -> f64 {
+    match map.fam {
+        0 | 2 | 4 | 7 => {
+            let l = map.a.abs().min(0.995);
+            K_TOL.max(1.5 * l / (1.0 - l))
+        }
+        _ => K_TOL,
+    }
+}
+
 pub fn run_steff(rep: &mut Report, map: Map, start: f64, tol: f64, n_max: usize, start_kind: &'static str, expect_err: bool) {
     let xs = match map.fixed_point() {
         Some(x) => x,
@@ -153,7 +177,7 @@ pub fn run_steff(rep: &mut Report, map: Map, start: f64, tol: f64, n_max: usize,
                         rep.count(&format!("{}/ok_with_tol_below_1e-11", name), 1);
                     }
                     let err = (x - xs).abs();
-                    let bound = K_TOL * tol + FLOOR * EPS * (1.0 + xs.abs());
+                    let bound = k_tol(&map) * tol + FLOOR * EPS * (1.0 + xs.abs());
                     rep.max(&format!("{}/error_over_bound", name), err / bound);
                     if !(err <= bound) {
                         rep.violation(&format!("{}/wrong-point", name), cj(), format!("Ok({:.17e}) is {:e} from the fixed point {:.17e}, bound {:e}", x, err, xs, bound));
@@ -197,7 +221,13 @@ fn catalogue_case(rep: &mut Report, i: u64) {
 }
 
 fn random_case(rng: &mut Rng, rep: &mut Report) {
-    let map = gen_map(rng);
+    // a quarter of the cases are slow contractions (L up to 0.99) with loose tolerances: a premature
+    // return is tol/(1-L)^2 away from the fixed point there, 1/(1-L) times the legitimate distance
+    let slow = rng.chance(0.25);
+    let map = if slow { gen_map_slow(rng) } else { gen_map(rng) };
+    if slow {
+        rep.count("steffensen/slow_contraction_cases", 1);
+    }
     let xs = match map.fixed_point() {
         Some(x) => x,
         None => {
@@ -205,8 +235,11 @@ fn random_case(rng: &mut Rng, rep: &mut Report) {
             return;
         }
     };
-    let tol = if rng.bool() { *rng.pick(&TOLS) } else { rng.log10(-13.0, -2.0) };
+    // slow contractions: tolerances 1e-9..1e-2 (|g(x) - x| <= tol has a rounding floor of a few ulp,
+    // and the distance to the fixed point is 1/(1-L) times larger)
+    let tol = if slow { rng.log10(-9.0, -2.0) } else if rng.bool() { *rng.pick(&TOLS) } else { rng.log10(-13.0, -2.0) };
     let spread = match map.fam {
+        2 if slow => 2.0,
         2 => 20.0,
         5 => 0.1 * xs,
         1 => 0.2,
